@@ -6,6 +6,7 @@ package c09
 import (
 	"errors"
 	"fmt"
+	"syscall"
 
 	lindbkv "github.com/lindb/lindb/kv"
 	"io"
@@ -111,7 +112,9 @@ func scratchBase() string {
 		return d
 	}
 	const shm = "/dev/shm"
-	if st, err := os.Stat(shm); err == nil && st.IsDir() {
+	var fs syscall.Statfs_t
+	if st, err := os.Stat(shm); err == nil && st.IsDir() && syscall.Statfs(shm, &fs) == nil && uint64(fs.Bavail)*uint64(fs.Bsize) >= 2<<30 {
+		// (a small /dev/shm, e.g. a container's 64 MB default, would fail a run half-way: require 2 GiB free)
 		if f, err := os.CreateTemp(shm, "lvh-c09-probe-*"); err == nil {
 			f.Close()
 			os.Remove(f.Name())
